@@ -2,6 +2,7 @@
 import json
 import random
 
+from vlib import clip as vclip
 from vlib import unreproduced as vlib_unreproduced, Broken, Verdict, read_ndjson, write_ndjson, require_coverage
 
 TRACE_CFG = "SPECIFICATION Spec\nCHECK_DEADLOCK TRUE\n"
@@ -13,7 +14,7 @@ def normalise(o):
     scn = o.get("scn") or {}
     return {"id": scn.get("id", -1), "arg": "%s|%s" % (scn.get("prefix"), scn.get("path")), "opts": scn.get("opts", []), "fsmod": scn.get("fsmod", False),
             "effective": scn.get("effective", False), "result": "crashed" if o.get("crashed") else "hung",
-            "err": ("CRASHED: " if o.get("crashed") else "HUNG: " if o.get("hung") else "HARNESS: " + str(o.get("harness_error"))) + (o.get("stderr") or "")[-1200:],
+            "err": ("CRASHED: " if o.get("crashed") else "HUNG: " if o.get("hung") else "HARNESS: " + str(o.get("harness_error"))) + vclip(o.get("stderr"), 1200),
             "listed": [], "fetched": 0, "leaks": [], "events": [], "scn": scn}
 
 
